@@ -8,9 +8,9 @@ From HV Require Export Base.Prelude Base.GoUrl C15.Model C15.Spec.
 Record case := { c_req : request; c_pl : pipeline; c_rule : rule; c_obs : outcome }.
 
 (* constructors with short names for the generated case files *)
-Definition rq m raw qry host hs body tls peer tr xfu :=
+Definition rq m raw qry host hs body fault tls peer tr xfu :=
   {| q_method := m; q_raw := raw; q_query := qry; q_host := host; q_headers := hs; q_body := body;
-     q_tls := tls; q_peer := peer; q_trusted := tr; q_xfu := xfu |}.
+     q_fault := fault; q_tls := tls; q_peer := peer; q_trusted := tr; q_xfu := xfu |}.
 Definition pln hs cs := {| p_headers := hs; p_cookies := cs |}.
 Definition rwr s c a q := {| rw_scheme := s; rw_cut := c; rw_add := a; rw_strip_q := q |}.
 Definition rul st host rw tls tracing :=
